@@ -322,7 +322,21 @@ func (wf *Workflow) runProcs(procs map[string]WorkflowProcess) {
 
 	Debug.Printf("%s: Starting driver process (%s) in main go-routine", wf.name, wf.driver.Name())
 	wf.Auditf("Starting workflow (Writing log to %s)", wf.logFile)
+	var sinkDone chan struct{}
+	if wf.driver != WorkflowProcess(wf.sink) && (wf.sink.in().Ready() || wf.sink.paramIn().Ready()) {
+		// Another process is the driver, but some out-ports are connected to
+		// the sink: it still has to be run, and waited for, so that the
+		// processes feeding it are drained and finished when we return
+		sinkDone = make(chan struct{})
+		go func() {
+			wf.sink.Run()
+			close(sinkDone)
+		}()
+	}
 	wf.driver.Run()
+	if sinkDone != nil {
+		<-sinkDone
+	}
 	wf.Auditf("Finished workflow (Log written to %s)", wf.logFile)
 }
 
